@@ -27,6 +27,8 @@ var c15Pws = []string{"", "pw", "secret password", "p\x00q", "\xfe\x01\x7f", "\x
 
 func genC15(rng *rand.Rand, c *Case) {
 	c.Cfg["policy"] = rng.Intn(3)
+	// a quarter of the cases make every function entry of the server a scheduling point (races on lock-free shared state)
+	c.Cfg["fnyield"] = rng.Intn(4) / 3
 	// a second administrator on its own connection edits its own accounts at the same moment as each request
 	c.Cfg["admin2"] = rng.Intn(2)
 	n := 3 + rng.Intn(10)
